@@ -20,7 +20,7 @@ Section Append.
     (S2 s0 s1 (<[h2 := HMemWriter 0 q c (Z.of_nat (length c))]> (<[h1 := HMemReader c (Z.of_nat (length c))]> tbl)),
      Ok (N.of_nat (length c))).
   Proof.
-    intros H1 H2 Hne. unfold handle_op, mstore2. cbn [st_handles]. rewrite H1. cbn [drain]. rewrite H2.
+    intros H1 H2 Hne. rewrite handle_op_no_io by reflexivity. unfold handle_op0, mstore2. cbn [st_handles]. rewrite H1. cbn [drain]. rewrite H2.
     assert (Hrest : rest_of c 0 = c).
     { unfold rest_of. rewrite Z.min_l by lia. reflexivity. }
     rewrite Hrest. rewrite Z.max_r by lia.
@@ -35,7 +35,7 @@ Section Append.
     handle_op h HDrop (S2 s0 s1 tbl) =
     (S2 (<[q := mkMemFile File buf (f_created g) (Some TAuto) (f_accessed g)]> s0) s1 (<[h := HClosed]> tbl), Ok tt).
   Proof.
-    intros Hh Hq Hg. unfold handle_op, mstore2. cbn [st_handles]. rewrite Hh.
+    intros Hh Hq Hg. rewrite handle_op_no_io by reflexivity. unfold handle_op0, mstore2. cbn [st_handles]. rewrite Hh.
     unfold mem_publish. cbn. rewrite Hq.
     destruct g as [ty c cr mo ac]. cbn in Hg. subst ty. reflexivity.
   Qed.
@@ -43,7 +43,7 @@ Section Append.
   Lemma hop_drop_reader2 (s0 s1 : mstate) tbl h c pos :
     tbl !! h = Some (HMemReader c pos) ->
     handle_op h HDrop (S2 s0 s1 tbl) = (S2 s0 s1 (<[h := HClosed]> tbl), Ok tt).
-  Proof. intros Hh. unfold handle_op, mstore2. cbn [st_handles]. rewrite Hh. reflexivity. Qed.
+  Proof. intros Hh. rewrite handle_op_no_io by reflexivity. unfold handle_op0, mstore2. cbn [st_handles]. rewrite Hh. reflexivity. Qed.
 
   Lemma open_file1 (s0 s1 : mstate) hs p f :
     s1 !! p = Some f -> f_type f = File ->
